@@ -102,14 +102,21 @@ def gen_case(rng, sb):
             'sandbox': sandbox, 'name': rng.choice([None, None, 'my.task']), 'seq': rng.randrange(10 ** 6), 'expansion': expansion,
             # (not together with a named environment: its prepared script un-sets what the executor's environment had when
             #  it was prepared - with an outer task's RP_* variables there it un-sets the task's own ones, DESIGN.md 7.3)
-            'outer': rng.random() < 0.25 and not named_env}
+            'outer': rng.random() < 0.25 and not named_env,
+            # the executable given by name, found through the PATH the task describes for itself (the agent's own PATH has a
+            # different program of that name first)
+            'bare': rng.random() < 0.2 and not named_env}
+
+
+def exe_of(sb, case):
+    return 'probe' if case.get('bare') else sb.probe
 
 
 def build(rp, sb, case, uid):
     import random
     rng = random.Random(case['seq'])
     codes = dict(case['codes'])
-    d = {'executable': sb.probe, 'arguments': list(case['args']), 'environment': dict(case['env']), 'ranks': case['ranks'],
+    d = {'executable': exe_of(sb, case), 'arguments': list(case['args']), 'environment': dict(case['env']), 'ranks': case['ranks'],
          'pre_exec': to_descr(case['pre'], sb.cmd, codes, rng), 'post_exec': to_descr(case['post'], sb.cmd, codes, rng),
          'pre_launch': ['%s %d %d' % (sb.cmd, i, codes[i]) for i in case['pre_launch']],
          'post_launch': ['%s %d %d' % (sb.cmd, i, codes[i]) for i in case['post_launch']],
@@ -140,7 +147,7 @@ def build(rp, sb, case, uid):
 
 def model_ops(sb, case, task, pwd):
     cw = True
-    ops = [{'op': 'execline', 'exe': sb.probe, 'args': case['args']}]
+    ops = [{'op': 'execline', 'exe': exe_of(sb, case), 'args': case['args']}]
     for k, v in case['env'].items():
         ops.append({'op': 'export', 'k': k, 'v': v})
     ops.append({'op': 'envorder', 'named': bool(case.get('named_env')), 'nenv': len(case['env'])})
@@ -160,7 +167,7 @@ def observe(sb, case, task, res, p, launcher, pwd):
     out = []
     line = launcher.get_exec(task)
     argv = res['ranks'].get(0, {}).get('argv')
-    out.append({'line': line, 'words': ([sb.probe] + argv) if argv is not None else 'not-run'})
+    out.append({'line': line, 'words': ([exe_of(sb, case)] + argv) if argv is not None else 'not-run'})
     exec_sh = open('%s/%s.exec.sh' % (task['task_sandbox_path'], task['uid'])).read()
     envr = res['ranks'].get(0, {}).get('env')
     # the export lines as the real _get_task_env wrote them: compared as one text (values may contain newlines)
@@ -258,6 +265,9 @@ def monitor(sb, case, task, res, pwd):
         if res['rc'] != 1:
             bad.append(('launch:exit-code-after-failing-pre_launch', 'exit code %s' % res['rc']))
         return bad
+    if os.path.exists(sb.probe_dir + '/decoy.ran'):
+        bad.append(('exec:another-program-than-the-described-one-ran', 'the executable is described as %r with PATH=%r; the program of that name on the '
+                    'agent\'s own PATH ran instead' % (exe_of(sb, case), case['env'].get('PATH'))))
     for r in range(n):
         if got_rank.get(r, []) != exp_rank[r]:
             sig = 'exec:order-or-rank-of-commands'
@@ -313,6 +323,8 @@ def monitor(sb, case, task, res, pwd):
 
 
 def one(rp, sb, p, case, uid):
+    if case.get('bare'):
+        case['env'] = dict(case['env'], PATH='%s/bin:/usr/bin:/bin' % sb.root)
     task = build(rp, sb, case, uid)
     launcher = execlib.make_launcher(rp, sb, case['ranks'])
     if case.get('named_env'):
@@ -336,6 +348,7 @@ def run(ctx):
             'sandbox_outside': 0, 'expansion': 0, 'gpu': 0}
     try:
         sb  = execlib.Sandbox(root)
+        os.environ['PATH'] = '%s/decoy:%s' % (sb.root, os.environ.get('PATH', '/usr/bin:/bin'))      # the agent's own search path
         p   = execlib.make_executor(rp, sb)
         pwd = p._pwd
         cases = [dict(c) for c in CORPUS] + [gen_case(rng, sb) for _ in range(ctx.n(140, 5000))]
@@ -454,6 +467,8 @@ CORPUS = [
     _mk(ranks=2, exe_codes=[0, 0], pre=[{'all': 1}, {'per': [[0, [2]], [1, [3, 4]]]}], post=[{'all': 5}],
         codes=[[1, 0], [2, 0], [3, 0], [4, 3], [5, 0]]),
     _mk(ranks=2, exe_codes=[0, 9], gpr=1, gpu_type='CUDA', gpus=[[0], [1, 2]]),
+    _mk(bare=True, args=['a']),                                    # executable by name, found through the task's own PATH
+    _mk(bare=True, ranks=2, exe_codes=[0, 3]),
 ]
 for c in CORPUS:
     c['codes'] = [tuple(x) for x in c['codes']]
@@ -466,6 +481,7 @@ def replay(ctx, data):
     root = tempfile.mkdtemp(prefix='c10_')
     try:
         sb = execlib.Sandbox(root)
+        os.environ['PATH'] = '%s/decoy:%s' % (sb.root, os.environ.get('PATH', '/usr/bin:/bin'))
         p  = execlib.make_executor(rp, sb)
         task, launcher, res = one(rp, sb, p, case, 'task.000000')
         bad = monitor(sb, case, task, res, p._pwd)
